@@ -96,9 +96,14 @@ pub fn judge(w: &World, v: &Victim, mutant: &[u8], kind: &str, component: &str, 
             return Ok(());
         }
     };
-    if m == v.enc {
-        col.class("mutants:equal-to-original(skipped)");
-        return Ok(());
+    let equal_object = m == v.enc;
+    if equal_object {
+        if mutant == &v.bytes[..] {
+            return Ok(());
+        }
+        // different bytes that deserialize to an equal object: the modification of the serialized
+        // form went unnoticed (non-canonical encoding accepted) — judged like any other mutant
+        col.class("mutants:different-bytes-equal-object");
     }
     col.class("mutants:deserialized");
     for (i, (pol, k)) in w.keys.iter().enumerate() {
